@@ -19,7 +19,12 @@
      net.ParseIP, ip.To4(), time.Parse (oracle tables)   GetTimeFmt (get_time_fmt)   strings.Trim / HasPrefix / HasSuffix
    and, for Int, Float, Json, File, Dir:
      switch init; tag   len(s)  >  <<   IntRe / FloatRe   ReflectKindIsNum (on the kind's name)   json.Valid (oracle)
-     internal.UnsafeStr2Bytes (the same bytes)   StrEscape (str_escape)   dir(path) (os.Stat oracle; error text abstract) *)
+     internal.UnsafeStr2Bytes (the same bytes)   StrEscape (str_escape)   dir(path) (os.Stat oracle; error text abstract)
+   and, for In, Include and in:
+     func(a, b string) bool { return e } (a value: a function from two strings to e's value)   f(x, y) on such a value
+     var ( ... ) groups with zero values   s[i:j] with its run-time bound   strings.Index / LastIndex (one byte) / Contains
+     == < + - on integers   for _, v := range ValidNamesSplit(s, '/') (names_split) with break
+     in(errBuf, ...) called from In / Include means in_text *)
 From Coq Require Import String.
 From PGV Require Import Base.Bytes Base.GoStr Base.GoNum Base.Utf8 Base.MiniGo Regex.Re Regex.Rx Extracted.SourceRegex.
 From PGV Require Import Extracted.SourceConst Model.RuleText Model.Value Model.Clause Model.Rules.
@@ -32,6 +37,9 @@ Inductive rv :=
 | RErrO                          (* some other non-nil error (time.Parse) *)
 | RIp (ok is4 : bool)            (* net.ParseIP's result: nil or not, with a 4-byte form or not *)
 | RKind (k : string)             (* a reflect.Kind, by name *)
+| RL (l : list str)              (* a slice of strings *)
+| RLB (l : list bool)            (* a slice of booleans (a variadic ...bool) *)
+| RFn (f : str -> str -> option bool)     (* a function literal func(a, b string) bool { return e }: None when e is stuck *)
 | RBad.
 Definition renv := string -> rv.
 Definition rset (x : string) (v : rv) (e : renv) : renv := fun y => if String.eqb y x then v else e y.
@@ -39,7 +47,26 @@ Definition rempty : renv :=
   fun y => if String.eqb y "ExplainEn" then RS ExplainEn
            else if String.eqb y "YearFmt" then RZ YearFmt else if String.eqb y "MonthFmt" then RZ MonthFmt
            else if String.eqb y "DateFmt" then RZ DateFmt else if String.eqb y "DateTimeFmt" then RZ DateTimeFmt
+           else if String.eqb y "toValErr" then RErr (Some (FRuleErr (s2b "to")))
+           else if String.eqb y "otoValErr" then RErr (Some (FRuleErr (s2b "oto")))
+           else if String.eqb y "inValErr" then RErr (Some (FRuleErr (s2b "in")))
+           else if String.eqb y "includeErr" then RErr (Some (FRuleErr (s2b "include")))
            else RBad.
+
+Definition rslice (s : str) (lo hi : Z) : rv :=
+  if (0 <=? lo) && (lo <=? hi) && (hi <=? Z.of_nat (List.length s))
+  then RS (firstn (Z.to_nat (hi - lo)) (skipn (Z.to_nat lo) s)) else RBad.     (* out of range: a run-time panic *)
+
+(* the loop of in(): the first option the comparison accepts ends it *)
+Fixpoint find_hit (g : str -> str -> option bool) (tv : str) (opts : list str) : option bool :=
+  match opts with
+  | [] => Some false
+  | o :: r => match g tv (trim [QUOTE] o) with
+              | Some true => Some true
+              | Some false => find_hit g tv r
+              | None => None
+              end
+  end.
 
 (* tv.String(): the text of a string, "<T Value>" otherwise;  tv.Kind(): only String is told apart *)
 Definition width_name (w : width) : string :=
@@ -51,7 +78,9 @@ Definition rkind (v : val) : string :=
   | VNilPtr _ | VPtr _ => "Ptr" | VSlice _ _ _ _ => "Slice" | VArray _ _ _ => "Array" | VMap _ _ _ _ => "Map"
   | VStruct _ _ | VTime _ => "Struct" | VIface _ => "Interface" | VOther _ => "Func"
   end%string.
+Definition kind_is (k c : string) : bool := String.eqb k c.      (* the comparison a switch on a kind makes *)
 (* ReflectKindIsNum(kind) (valid/common.go), on the name of the kind, floats not allowed *)
+Definition kind_name_is_float (k : string) : bool := String.eqb k "Float32" || String.eqb k "Float64".
 Definition kind_name_is_int (k : string) : bool :=
   existsb (String.eqb k) ["Int"; "Int8"; "Int16"; "Int32"; "Int64"; "Uint"; "Uint8"; "Uint16"; "Uint32"; "Uint64"]%string.
 Definition MUST_STR : str := s2b "it must is string".
@@ -60,6 +89,19 @@ Definition check_str_err (obj field : str) (v : val) : rv :=
   match v with
   | VStr _ => RErr None
   | _ => RErrS (join_valid_err obj field (value_string v) [ExplainEn; MUST_STR])
+  end.
+
+Inductive rflow := RNext (e : renv) | RBrk (e : renv) | RRet (e : renv) | RStuck.
+
+(* for i, v := range l { body }: break ends the loop, return ends the function *)
+Fixpoint range_brk (l : list str) (idx : Z) (body : Z -> str -> renv -> rflow) (e : renv) : rflow :=
+  match l with
+  | [] => RNext e
+  | c :: r => match body idx c e with
+              | RNext e1 => range_brk r (idx + 1) body e1
+              | RBrk e1 => RNext e1
+              | other => other
+              end
   end.
 
 Section Sem.
@@ -81,11 +123,23 @@ Section Sem.
                else if String.eqb n "nil" then RErr None else e n
     | EStr s => RS s
     | ELit z => RZ z
-    | EUn op a => if String.eqb op "!" then match reval e a with RB b => RB (negb b) | _ => RBad end else RBad
+    | EUn op a => if String.eqb op "!" then match reval e a with RB b => RB (negb b) | _ => RBad end
+                  else if String.eqb op "-" then match reval e a with RZ z => RZ (- z) | _ => RBad end else RBad
+    | EIndex a i =>
+      match reval e a, reval e i with
+      | RL l, RZ z => if 0 <=? z then match nth_error l (Z.to_nat z) with Some x => RS x | None => RBad end else RBad
+      | RLB l, RZ z => if 0 <=? z then match nth_error l (Z.to_nat z) with Some x => RB x | None => RBad end else RBad
+      | _, _ => RBad
+      end
+    | EFuncRet [a; b] ret =>
+      RFn (fun x y => match reval (rset b (RS y) (rset a (RS x) e)) ret with RB r => Some r | _ => None end)
+    | ESlice a (Some lo) (Some hi) =>
+      match reval e a, reval e lo, reval e hi with RS x, RZ l, RZ h => rslice x l h | _, _, _ => RBad end
     | EBin op a b =>
       let ne := fun x y =>
         match x, y with
         | RS x, RS y => Some (negb (str_eqb x y))
+        | RZ x, RZ y => Some (negb (x =? y))
         | RErr x, RErr None => Some (match x with Some _ => true | None => false end)
         | RErrS _, RErr None | RErrO, RErr None => Some true
         | RIp ok _, RErr None => Some ok
@@ -97,7 +151,9 @@ Section Sem.
         match reval e a with RB false => RB false | RB true => match reval e b with RB y => RB y | _ => RBad end | _ => RBad end
       else if String.eqb op "||" then
         match reval e a with RB true => RB true | RB false => match reval e b with RB y => RB y | _ => RBad end | _ => RBad end
-      else if String.eqb op "+" then match reval e a, reval e b with RS x, RS y => RS (x ++ y) | _, _ => RBad end
+      else if String.eqb op "+" then
+        match reval e a, reval e b with RS x, RS y => RS (x ++ y) | RZ x, RZ y => RZ (x + y) | _, _ => RBad end
+      else if String.eqb op "<" then match reval e a, reval e b with RZ x, RZ y => RB (x <? y) | _, _ => RBad end
       else if String.eqb op "|" then match reval e a, reval e b with RZ x, RZ y => RZ (Z.lor x y) | _, _ => RBad end
       else if String.eqb op "<<" then match reval e a, reval e b with RZ x, RZ y => RZ (Z.shiftl x y) | _, _ => RBad end
       else if String.eqb op ">" then match reval e a, reval e b with RZ x, RZ y => RB (y <? x) | _, _ => RBad end
@@ -139,6 +195,12 @@ Section Sem.
         match reval e a, reval e b with
         | RS x, RS y =>
           if String.eqb m "Trim" then RS (trim y x)
+          else if String.eqb m "Split" then match y with [] => RBad | _ => RL (split x y) end
+          else if String.eqb m "Contains" then RB (contains x y)
+          else if String.eqb m "Index" then
+            match y with [c] => RZ (match index_byte c x with Some n => Z.of_nat n | None => -1 end) | _ => RBad end
+          else if String.eqb m "LastIndex" then
+            match y with [c] => RZ (match last_index_byte c x with Some n => Z.of_nat n | None => -1 end) | _ => RBad end
           else if String.eqb m "HasPrefix" then RB (has_prefix x y)
           else if String.eqb m "HasSuffix" then RB (has_suffix x y)
           else RBad
@@ -147,7 +209,12 @@ Section Sem.
       else RBad
     | ECall (EId f) args =>
       let vs := (fix evs (l : list expr) : list rv := match l with [] => [] | a :: r => reval e a :: evs r end) args in
-      if String.eqb f "GetJoinValidErrStr" then
+      match e f with
+      | RFn g => match vs with [RS x; RS y] => match g x y with Some r => RB r | None => RBad end | _ => RBad end
+      | _ =>
+      if String.eqb f "ValidNamesSplit" then       (* with a one-byte ASCII separator *)
+        match vs with [RS x; RZ c] => if (0 <=? c) && (c <? 128) then RL (names_split (Z.to_N c) x) else RBad | _ => RBad end
+      else if String.eqb f "GetJoinValidErrStr" then
         match strs vs with
         | Some (obj :: field :: echo :: others) => RS (join_valid_err obj field echo others)
         | _ => RBad
@@ -162,7 +229,11 @@ Section Sem.
         | [RS obj; RS field; RVal v] => check_str_err obj field v
         | _ => RBad
         end
-      else if String.eqb f "len" then match vs with [RS x] => RZ (Z.of_nat (List.length x)) | _ => RBad end
+      else if String.eqb f "len" then
+        match vs with
+        | [RS x] => RZ (Z.of_nat (List.length x)) | [RL x] => RZ (Z.of_nat (List.length x)) | [RLB x] => RZ (Z.of_nat (List.length x))
+        | _ => RBad
+        end
       else if String.eqb f "StrEscape" then match vs with [RS x] => RS (str_escape x) | _ => RBad end
       else if String.eqb f "ReflectKindIsNum" then match vs with [RKind k] => RB (kind_name_is_int k) | _ => RBad end
       else if String.eqb f "GetTimeFmt" then
@@ -177,6 +248,7 @@ Section Sem.
         | _ => RBad
         end
       else RBad
+      end
     | _ => RBad
     end.
 
@@ -219,6 +291,29 @@ Section Sem.
       end
     else None.
 
+  (* in(errBuf, validName, objName, fieldName, tv, fn) (valid/validfn.go): what it appends to the buffer; its own body is
+     tied to this text by Proofs/GoInProofs.v, for every comparison function fn *)
+  Definition in_text (g : str -> str -> option bool) (vn obj field : str) (v : val) : option str :=
+    let key := pk_key vn in
+    let err := field_err obj field (FRuleErr (if str_eqb key (s2b "include") then s2b "include" else s2b "in")) in
+    match in_vals (pk_val vn) with
+    | None => Some err
+    | Some iv =>
+      match (match v with VStr x => Some x | _ => if str_eqb key (s2b "include") then None else Some (to_str v) end) with
+      | None => Some err
+      | Some t =>
+        match find_hit g t (names_split SLASH iv) with
+        | None => None
+        | Some true => Some []
+        | Some false =>
+          Some (match pk_msg vn with
+                | [] => join_valid_err obj field t [ExplainEn; s2b "it should " ++ key ++ s2b " (" ++ iv ++ s2b ")"]
+                | cus => join_valid_err obj field t [cus]
+                end)
+        end
+      end
+    end.
+
   Fixpoint bind (lhs : list expr) (vs : list rv) (e : renv) : option renv :=
     match lhs, vs with
     | [], [] => Some e
@@ -226,7 +321,6 @@ Section Sem.
     | _, _ => None
     end.
 
-  Inductive rflow := RNext (e : renv) | RRet (e : renv) | RStuck.
 
   Fixpoint rexec (s : stmt) (e : renv) {struct s} : rflow :=
     let run := fix run (l : list stmt) (e : renv) {struct l} : rflow :=
@@ -246,7 +340,7 @@ Section Sem.
         | _, _ => RStuck
         end
       else RStuck
-    | SAssign true lhs [ECall (ESel (EId pkg) f) [a]] =>          (* n, _ := strconv.Atoi(s) *)
+    | SAssign _ lhs [ECall (ESel (EId pkg) f) [a]] =>             (* n, _ := strconv.Atoi(s)   n, err = strconv.Atoi(s) *)
       if String.eqb pkg "strconv" && String.eqb f "Atoi" then
         match reval e a with
         | RS x => match bind lhs [RZ (fst (atoi x)); RErr (if snd (atoi x) then Some FAtoi else None)] e with
@@ -290,7 +384,7 @@ Section Sem.
                 match vs with
                 | [] => pick r
                 | v :: vr => match reval e v with
-                             | RKind c => if String.eqb k c then run body e else any vr
+                             | RKind c => if kind_is k c then run body e else any vr
                              | _ => RStuck
                              end
                 end) vals
@@ -307,6 +401,25 @@ Section Sem.
         end
       else RStuck
     | SReturn [] => RRet e
+    | SBreak => RBrk e
+    | SBlock l => run l e           (* a var ( ... ) group: its names stay in scope *)
+    | SVar [x] ty [] =>
+      if String.eqb ty "bool" then RNext (rset x (RB false) e)
+      else if String.eqb ty "string" then RNext (rset x (RS []) e) else RStuck
+    | SVar [x] _ [rhs] => match reval e rhs with RBad => RStuck | v => RNext (rset x v e) end
+    | SRange (Some i) (Some v) _ coll body =>
+      match reval e coll with
+      | RL l => range_brk l 0 (fun idx c e' => run body (rset v (RS c) (rset i (RZ idx) e'))) e
+      | _ => RStuck
+      end
+    | SExpr (ECall (EId f) [EId b; a1; a2; a3; a4; a5]) =>       (* in(errBuf, validName, objName, fieldName, tv, fn) *)
+      if String.eqb f "in" then
+        match e b, reval e a1, reval e a2, reval e a3, reval e a4, reval e a5 with
+        | RS acc, RS vn, RS obj, RS field, RVal v, RFn g =>
+          match in_text g vn obj field v with Some t => RNext (rset b (RS (acc ++ t)) e) | None => RStuck end
+        | _, _, _, _, _, _ => RStuck
+        end
+      else RStuck
     | _ => RStuck
     end.
 
@@ -322,7 +435,16 @@ Section Sem.
               (rset "tv" (RVal v) rempty)))) in
     match rexec_list (fn_body f) e0 with
     | RNext e | RRet e => match e "errBuf"%string with RS s => Some s | _ => None end
-    | RStuck => None
+    | _ => None
+    end.
+
+  (* in(...) itself, with an arbitrary comparison function *)
+  Definition run_in (f : fn) (g : str -> str -> option bool) (vn obj field : str) (v : val) : option str :=
+    let e0 := rset "errBuf" (RS []) (rset "validName" (RS vn) (rset "objName" (RS obj) (rset "fieldName" (RS field)
+              (rset "tv" (RVal v) (rset "fn" (RFn g) rempty))))) in
+    match rexec_list (fn_body f) e0 with
+    | RNext e | RRet e => match e "errBuf"%string with RS s => Some s | _ => None end
+    | _ => None
     end.
 End Sem.
 
@@ -331,5 +453,26 @@ Definition run_check_str (orc : oracles) (f : fn) (obj field : str) (v : val) : 
   let e0 := rset "err" (RErr None) (rset "objName" (RS obj) (rset "fieldName" (RS field) (rset "tv" (RVal v) rempty))) in
   match rexec_list orc (fun _ => []) (fun _ _ _ => []) (fun _ => []) (fn_body f) e0 with
   | RNext e | RRet e => Some (e "err"%string)
-  | RStuck => None
+  | _ => None
+  end.
+
+(* parseTagTo(toVal, isHasEqual) (min, max int, err error): the named results start at 0, 0, nil *)
+Definition run_parse_to (f : fn) (to_val : str) (he : bool) : option ((Z * Z) + ftext) :=
+  let e0 := rset "toVal" (RS to_val) (rset "isHasEqual" (RB he) (rset "min" (RZ 0) (rset "max" (RZ 0) (rset "err" (RErr None) rempty)))) in
+  match rexec_list no_oracles (fun _ => []) (fun _ _ _ => []) (fun _ => []) (fn_body f) e0 with
+  | RNext e | RRet e =>
+    match e "min"%string, e "max"%string, e "err"%string with
+    | RZ mn, RZ mx, RErr None => Some (inl (mn, mx))
+    | _, _, RErr (Some t) => Some (inr t)
+    | _, _, _ => None
+    end
+  | _ => None
+  end.
+
+(* ReflectKindIsNum(kind, isCanFloat...) (is bool), on the name of the kind *)
+Definition run_kind_is_num (f : fn) (k : string) (flags : list bool) : option bool :=
+  let e0 := rset "kind" (RKind k) (rset "isCanFloat" (RLB flags) (rset "is" (RB false) rempty)) in
+  match rexec_list no_oracles (fun _ => []) (fun _ _ _ => []) (fun _ => []) (fn_body f) e0 with
+  | RNext e | RRet e => match e "is"%string with RB b => Some b | _ => None end
+  | _ => None
   end.
